@@ -29,13 +29,21 @@ pub mod model {
     //! (`i < CAP`) next to the symbolic one (`i < len`) so that CBMC's symbolic execution stops
     //! unrolling at CAP instead of at the harness-wide unwind bound. Exceeding CAP is a
     //! model-capacity assertion failure (never silently truncated).
+    use std::cell::UnsafeCell;
     use std::ops::Range;
 
     pub const CAP: usize = 8;
 
     /// Insertion-ordered map: linear search over an array of pairs.
+    ///
+    /// The slot array sits in an `UnsafeCell` on purpose: `UnsafeCell` exposes no niche, so enums
+    /// that contain the map (e.g. `PeerMap::{Small,Large}`) keep a plain tag that CBMC can
+    /// constant-fold; with bare `Option` slots rustc niche-fills the enum and CBMC treats the
+    /// discriminant as symbolic, executing both variants' code on every call (10x formula).
+    /// (`MaybeUninit` slots also hide the niche but CBMC mis-tracked writes through the union.)
+    /// Slots `0..len` are `Some`.
     pub struct IndexMap<K, V> {
-        pub entries: [Option<(K, V)>; CAP],
+        pub entries: UnsafeCell<[Option<(K, V)>; CAP]>,
         pub len: usize,
     }
 
@@ -45,7 +53,7 @@ pub mod model {
 
     impl<K, V> Default for IndexMap<K, V> {
         fn default() -> Self {
-            Self { entries: [const { None }; CAP], len: 0 }
+            Self { entries: UnsafeCell::new([const { None }; CAP]), len: 0 }
         }
     }
 
@@ -57,7 +65,8 @@ pub mod model {
                 if i >= self.len {
                     break;
                 }
-                m.entries[i] = self.entries[i].clone();
+                let c = self.at(i).clone();
+                m.put(i, Some(c));
                 i += 1;
             }
             m.len = self.len;
@@ -84,14 +93,33 @@ pub mod model {
         pub fn is_empty(&self) -> bool {
             self.len == 0
         }
+        fn slots(&self) -> &[Option<(K, V)>; CAP] {
+            unsafe { &*self.entries.get() }
+        }
         fn at(&self, i: usize) -> &(K, V) {
-            match &self.entries[i] {
+            match &self.slots()[i] {
                 Some(e) => e,
                 None => unreachable!(),
             }
         }
         fn at_mut(&mut self, i: usize) -> &mut (K, V) {
-            match &mut self.entries[i] {
+            match &mut self.entries.get_mut()[i] {
+                Some(e) => e,
+                None => unreachable!(),
+            }
+        }
+        /// Slot writes go through `ptr::write`: Kani 0.68 loses an aggregate assignment
+        /// `slots[i] = Some(big_value)` when the map lives inside a tagged enum variant
+        /// (reproduced in harness/kani-common/src/dbg.rs); the raw write is modelled correctly.
+        fn put(&mut self, i: usize, e: Option<(K, V)>) {
+            let slot: *mut Option<(K, V)> = &mut self.entries.get_mut()[i];
+            unsafe { std::ptr::write(slot, e) };
+        }
+        fn take(&mut self, i: usize) -> (K, V) {
+            let slot: *mut Option<(K, V)> = &mut self.entries.get_mut()[i];
+            let old = unsafe { std::ptr::read(slot) };
+            unsafe { std::ptr::write(slot, None) };
+            match old {
                 Some(e) => e,
                 None => unreachable!(),
             }
@@ -99,34 +127,31 @@ pub mod model {
         /// harness-side constructor: append without looking for duplicates
         pub fn push_unchecked(&mut self, k: K, v: V) {
             assert!(self.len < CAP, "model capacity exceeded");
-            self.entries[self.len] = Some((k, v));
+            let n = self.len;
+            self.put(n, Some((k, v)));
             self.len += 1;
         }
         fn swap_remove_index(&mut self, i: usize) -> (K, V) {
             let last = self.len - 1;
-            let removed = if i == last {
-                self.entries[i].take()
-            } else {
-                let l = self.entries[last].take();
-                std::mem::replace(&mut self.entries[i], l)
-            };
-            self.len = last;
-            match removed {
-                Some(e) => e,
-                None => unreachable!(),
+            let removed = self.take(i);
+            if i != last {
+                let l = self.take(last);
+                self.put(i, Some(l));
             }
+            self.len = last;
+            removed
         }
         pub fn shrink_to_fit(&mut self) {}
         pub fn keys(&self) -> Keys<'_, K, V> {
-            Keys { s: &self.entries, from: 0, to: self.len }
+            Keys { s: self.slots(), from: 0, to: self.len }
         }
         pub fn iter(&self) -> Iter<'_, K, V> {
-            Iter { s: &self.entries, from: 0, to: self.len }
+            Iter { s: self.slots(), from: 0, to: self.len }
         }
         /// indexmap: `Some` iff `start <= end <= len`.
         pub fn get_range(&self, r: Range<usize>) -> Option<Slice<'_, K, V>> {
             if r.start <= r.end && r.end <= self.len {
-                Some(Slice { s: &self.entries, from: r.start, to: r.end })
+                Some(Slice { s: self.slots(), from: r.start, to: r.end })
             } else {
                 None
             }
@@ -148,12 +173,9 @@ pub mod model {
                 if r >= n {
                     break;
                 }
-                let mut e = match self.entries[r].take() {
-                    Some(e) => e,
-                    None => unreachable!(),
-                };
+                let mut e = self.take(r);
                 if f(&e.0, &mut e.1) {
-                    self.entries[w] = Some(e);
+                    self.put(w, Some(e));
                     w += 1;
                 } else {
                     drop(e);
@@ -164,6 +186,55 @@ pub mod model {
         }
         pub fn clear(&mut self) {
             self.retain(|_, _| false);
+        }
+        pub fn values(&self) -> impl Iterator<Item = &V> {
+            self.iter().map(|e| e.1)
+        }
+        /// compile-only (statistics worker; not on any verified path): insertion sort
+        pub fn sort_unstable_by<F: FnMut(&K, &V, &K, &V) -> std::cmp::Ordering>(&mut self, mut f: F) {
+            let mut i = 1;
+            while i < CAP {
+                if i >= self.len {
+                    break;
+                }
+                let mut j = i;
+                while j > 0 {
+                    let swap = {
+                        let a = self.at(j - 1);
+                        let b = self.at(j);
+                        f(&a.0, &a.1, &b.0, &b.1) == std::cmp::Ordering::Greater
+                    };
+                    if !swap {
+                        break;
+                    }
+                    self.entries.get_mut().swap(j - 1, j);
+                    j -= 1;
+                }
+                i += 1;
+            }
+        }
+    }
+
+    pub struct IntoIter<K, V> {
+        m: IndexMap<K, V>,
+        from: usize,
+    }
+    impl<K, V> Iterator for IntoIter<K, V> {
+        type Item = (K, V);
+        fn next(&mut self) -> Option<(K, V)> {
+            if self.from >= CAP || self.from >= self.m.len {
+                return None;
+            }
+            let r = self.m.take(self.from);
+            self.from += 1;
+            Some(r)
+        }
+    }
+    impl<K, V> IntoIterator for IndexMap<K, V> {
+        type Item = (K, V);
+        type IntoIter = IntoIter<K, V>;
+        fn into_iter(self) -> IntoIter<K, V> {
+            IntoIter { m: self, from: 0 }
         }
     }
 
@@ -199,7 +270,12 @@ pub mod model {
         /// indexmap: replaces the value in place (position kept) or appends.
         pub fn insert(&mut self, k: K, v: V) -> Option<V> {
             match self.position(&k) {
-                Some(i) => Some(std::mem::replace(&mut self.at_mut(i).1, v)),
+                Some(i) => {
+                    let slot: *mut V = &mut self.at_mut(i).1;
+                    let old = unsafe { std::ptr::read(slot) };
+                    unsafe { std::ptr::write(slot, v) };
+                    Some(old)
+                }
                 None => {
                     self.push_unchecked(k, v);
                     None
@@ -261,6 +337,10 @@ pub mod model {
             self.from += 1;
             Some(r)
         }
+        fn size_hint(&self) -> (usize, Option<usize>) {
+            let n = self.to - self.from;
+            (n, Some(n))
+        }
     }
     pub struct Iter<'a, K, V> {
         s: &'a [Option<(K, V)>; CAP],
@@ -279,6 +359,10 @@ pub mod model {
             };
             self.from += 1;
             Some(r)
+        }
+        fn size_hint(&self) -> (usize, Option<usize>) {
+            let n = self.to - self.from;
+            (n, Some(n))
         }
     }
 
@@ -319,6 +403,12 @@ pub mod model {
             match self {
                 Entry::Occupied(o) => o.into_mut(),
                 Entry::Vacant(v) => v.insert(V::default()),
+            }
+        }
+        pub fn or_insert(self, v: V) -> &'a mut V {
+            match self {
+                Entry::Occupied(o) => o.into_mut(),
+                Entry::Vacant(e) => e.insert(v),
             }
         }
         pub fn or_insert_with<F: FnOnce() -> V>(self, f: F) -> &'a mut V {
